@@ -1,3 +1,369 @@
+/-
+C10 driver: one case line → the model's canonical output line (see go/props/c10).
+All field values travel as the RAW limb content (Montgomery form), 64 hex digits each, so the
+comparison with the real code is exact on the machine representation.
+
+  f <add|sub|neg|mul> <alias> <a> <b>   interpreted gfp.s on both gfpMul paths; must equal the Nat model
+  fx <enc|dec|inv|new> <a|k>            montEncode / montDecode / Invert / newGFp
+  t2|t6|t12 <op> <a> [<b>|<k>]          tower operations
+  g1|g2 <add|dbl|mul|aff|neg|onc> …     Jacobian point operations (receiver state included)
+  miller|pair <Q> <P>, finexp <f>, check <P;Q|…>
+-/
 import DosModel.Model.Util
--- stub: no model driver for this property yet
-def main : IO Unit := Dos.lineLoop (fun _ => "unimplemented")
+import DosModel.Model.AsmBn256
+import DosModel.Model.Bn256CPairing
+import DosModel.Gen.Bn256Asm
+
+open Dos Dos.Bn256 Dos.Mont
+
+namespace C10Drv
+
+def hexNat (s : String) : Option Nat := (ofHex s).map beNat
+def natHex (n : Nat) : String := toHex (natBE 32 n)
+
+def gfpOf (s : String) : Option GFp := (hexNat s).map GFp.mk
+def gfpHex (a : GFp) : String := natHex a.v
+
+def splitC (s : String) : List String := s.splitOn ","
+
+def fp2Of : List String → Option F2
+  | [a, b] => do pure ⟨← gfpOf a, ← gfpOf b⟩
+  | _ => none
+def fp6Of : List String → Option F6
+  | [a, b, c, d, e, f] => do pure ⟨← fp2Of [a, b], ← fp2Of [c, d], ← fp2Of [e, f]⟩
+  | _ => none
+def fp12Of (l : List String) : Option F12 :=
+  if l.length = 12 then do pure ⟨← fp6Of (l.take 6), ← fp6Of (l.drop 6)⟩ else none
+
+def fp2Hex (a : F2) : String := gfpHex a.x ++ "," ++ gfpHex a.y
+def fp6Hex (a : F6) : String := fp2Hex a.x ++ "," ++ fp2Hex a.y ++ "," ++ fp2Hex a.z
+def fp12Hex (a : F12) : String := fp6Hex a.x ++ "," ++ fp6Hex a.y
+
+def g1Of (s : String) : Option G1J := match splitC s with
+  | [a, b, c, d] => do pure ⟨← gfpOf a, ← gfpOf b, ← gfpOf c, ← gfpOf d⟩
+  | _ => none
+def g2Of (s : String) : Option G2J := match splitC s with
+  | [a, b, c, d, e, f, g, h] => do pure ⟨← fp2Of [a, b], ← fp2Of [c, d], ← fp2Of [e, f], ← fp2Of [g, h]⟩
+  | _ => none
+def g1Hex (p : G1J) : String := gfpHex p.x ++ "," ++ gfpHex p.y ++ "," ++ gfpHex p.z ++ "," ++ gfpHex p.t
+def g2Hex (p : G2J) : String := fp2Hex p.x ++ "," ++ fp2Hex p.y ++ "," ++ fp2Hex p.z ++ "," ++ fp2Hex p.t
+
+/-! ### interpreted assembly -/
+open Dos.Asm
+
+def aliasOf (s : String) : Option (Blk → Blk) :=
+  match s with
+  | "n" => some id
+  | "ca" => some fun | .c => .a | k => k
+  | "cb" => some fun | .c => .b | k => k
+  | "ab" => some fun | .b => .a | k => k
+  | "cab" => some fun _ => .a
+  | _ => none
+
+def runAsm := runFn
+
+def fieldCase (op alias a b : String) : String :=
+  match aliasOf alias, hexNat a, hexNat b with
+  | some al, some av, some bv0 =>
+      -- with a and b aliased the callee sees a in both
+      let bv := if al .b = al .a then av else bv0
+      let (fn, model) : Func × Nat := match op with
+        | "add" => (Gen.Bn256Asm.gfpAdd, addM p av bv)
+        | "sub" => (Gen.Bn256Asm.gfpSub, subM p av bv)
+        | "neg" => (Gen.Bn256Asm.gfpNeg, negM p av)
+        | _ => (Gen.Bn256Asm.gfpMul, mulM p np av bv)
+      match runAsm fn false al av bv, runAsm fn true al av bv with
+      | .ok r0, .ok r1 =>
+          if r0 = model ∧ r1 = model then natHex r0 ++ " " ++ natHex r1
+          else "MODEL-MISMATCH interp=" ++ natHex r0 ++ "," ++ natHex r1 ++ " model=" ++ natHex model
+      | .error m, _ => "INTERP-ERROR " ++ m
+      | _, .error m => "INTERP-ERROR " ++ m
+  | _, _, _ => "bad-case"
+
+def bad : String := "bad-case"
+
+def orBad (o : Option String) : String := o.getD bad
+
+def t2Case (op : String) (args : List String) : String := orBad do
+  let a ← fp2Of (splitC (← args[0]?))
+  match op with
+  | "sq" => pure (fp2Hex a.square)
+  | "inv" => pure (fp2Hex a.invert)
+  | "xi" => pure (fp2Hex a.mulXi)
+  | "conj" => pure (fp2Hex a.conjugate)
+  | "neg" => pure (fp2Hex a.neg)
+  | "muls" => do let b ← gfpOf (← args[1]?); pure (fp2Hex (a.mulScalar b))
+  | _ =>
+    let b ← fp2Of (splitC (← args[1]?))
+    match op with
+    | "mul" => pure (fp2Hex (a.mul b))
+    | "add" => pure (fp2Hex (a.add b))
+    | "sub" => pure (fp2Hex (a.sub b))
+    | _ => none
+
+def t6Case (op : String) (args : List String) : String := orBad do
+  let a ← fp6Of (splitC (← args[0]?))
+  match op with
+  | "sq" => pure (fp6Hex a.square)
+  | "inv" => pure (fp6Hex a.invert)
+  | "tau" => pure (fp6Hex a.mulTau)
+  | "neg" => pure (fp6Hex a.neg)
+  | "frob" => pure (fp6Hex (Fp6.frobenius a))
+  | "frob2" => pure (fp6Hex (Fp6.frobeniusP2 a))
+  | "frob4" => pure (fp6Hex (Fp6.frobeniusP4 a))
+  | "muls" => do let b ← fp2Of (splitC (← args[1]?)); pure (fp6Hex (a.mulScalar b))
+  | "mulg" => do let b ← gfpOf (← args[1]?); pure (fp6Hex (a.mulGFP b))
+  | _ =>
+    let b ← fp6Of (splitC (← args[1]?))
+    match op with
+    | "mul" => pure (fp6Hex (a.mul b))
+    | "add" => pure (fp6Hex (a.add b))
+    | "sub" => pure (fp6Hex (a.sub b))
+    | _ => none
+
+def t12Case (op : String) (args : List String) : String := orBad do
+  let a ← fp12Of (splitC (← args[0]?))
+  match op with
+  | "sq" => pure (fp12Hex a.square)
+  | "inv" => pure (fp12Hex a.invert)
+  | "conj" => pure (fp12Hex a.conjugate)
+  | "neg" => pure (fp12Hex a.neg)
+  | "frob" => pure (fp12Hex (Fp12.frobenius a))
+  | "frob2" => pure (fp12Hex (Fp12.frobeniusP2 a))
+  | "frob4" => pure (fp12Hex (Fp12.frobeniusP4 a))
+  | "exp" => do let k ← (← args[1]?).toNat?; pure (fp12Hex (a.exp k))
+  | "finexp" => pure (fp12Hex (finalExponentiation a))
+  | _ =>
+    let b ← fp12Of (splitC (← args[1]?))
+    match op with
+    | "mul" => pure (fp12Hex (a.mul b))
+    | "add" => pure (fp12Hex (a.add b))
+    | "sub" => pure (fp12Hex (a.sub b))
+    | _ => none
+
+/-- receiver / operand aliasing of a point operation: the aliased operand is the SAME object -/
+def pick3 {α : Type} (alias : String) (c a b : α) : Option (α × α × α) :=
+  match alias with
+  | "n" => some (c, a, b)
+  | "ca" => some (a, a, b)
+  | "cb" => some (b, a, b)
+  | "ab" => some (c, a, a)
+  | "cab" => some (a, a, a)
+  | _ => none
+
+def g1Case (op : String) (args : List String) : String := orBad do
+  match op with
+  | "add" =>
+      let (c, a, b) ← pick3 (← args[0]?) (← g1Of (← args[1]?)) (← g1Of (← args[2]?)) (← g1Of (← args[3]?))
+      pure (g1Hex (Jac.add c a b))
+  | "dbl" =>
+      let (c, a, _) ← pick3 (← args[0]?) (← g1Of (← args[1]?)) (← g1Of (← args[2]?)) (← g1Of (← args[2]?))
+      pure (g1Hex (Jac.double c a))
+  | "mul" => do
+      let a ← g1Of (← args[0]?)
+      let k ← (← args[1]?).toNat?
+      pure (g1Hex (Jac.curveMul a k))
+  | "aff" => do pure (g1Hex (← g1Of (← args[0]?)).makeAffine)
+  | "neg" => do pure (g1Hex (curveNeg (← g1Of (← args[0]?))))
+  | "onc" => do pure (toString (curveIsOnCurve (← g1Of (← args[0]?))))
+  | _ => none
+
+def g2Case (op : String) (args : List String) : String := orBad do
+  match op with
+  | "add" =>
+      let (c, a, b) ← pick3 (← args[0]?) (← g2Of (← args[1]?)) (← g2Of (← args[2]?)) (← g2Of (← args[3]?))
+      pure (g2Hex (Jac.add c a b))
+  | "dbl" =>
+      let (c, a, _) ← pick3 (← args[0]?) (← g2Of (← args[1]?)) (← g2Of (← args[2]?)) (← g2Of (← args[2]?))
+      pure (g2Hex (Jac.double c a))
+  | "mul" => do
+      let a ← g2Of (← args[0]?)
+      let k ← (← args[1]?).toNat?
+      pure (g2Hex (Jac.twistMul a k))
+  | "aff" => do pure (g2Hex (← g2Of (← args[0]?)).makeAffine)
+  | "neg" => do pure (g2Hex (twistNeg (← g2Of (← args[0]?))))
+  | "onc" => do pure (toString (twistIsOnCurve (← g2Of (← args[0]?))))
+  | _ => none
+
+def pairsOf (s : String) : Option (List (G1J × G2J)) :=
+  if s == "-" then some [] else
+  (s.splitOn "|").mapM fun e => match e.splitOn ";" with
+    | [p, q] => do pure (← g1Of p, ← g2Of q)
+    | _ => none
+
+
+/-! ### API-level programs (exported kyber interface of the suite, point.go) -/
+
+inductive RegVal
+  | g1 (p : G1J)
+  | g2 (q : G2J)
+  | gt (e : F12)
+  | b (v : Bool)
+
+abbrev Regs := List (String × RegVal)
+
+def Regs.get? (rs : Regs) (n : String) : Option RegVal := (rs.find? (·.1 == n)).map (·.2)
+def Regs.put (rs : Regs) (n : String) (v : RegVal) : Regs :=
+  if rs.any (·.1 == n) then rs.map (fun e => if e.1 == n then (n, v) else e) else rs ++ [(n, v)]
+
+def dec (a : GFp) : String := natHex (GFp.montDecode a).v
+/-- montEncode(Unmarshal(Marshal(montDecode a))) -/
+def reenc (a : GFp) : GFp := GFp.montEncode (GFp.montDecode a)
+def reenc2 (a : F2) : F2 := ⟨reenc a.x, reenc a.y⟩
+
+/-- pointG1.MarshalBinary (works on a copy) -/
+def g1Marshal (p : G1J) : String :=
+  let a := p.makeAffine
+  if a.isInfinity then natHex 0 ++ natHex 0 else dec a.x ++ dec a.y
+/-- pointG1.Clone = UnmarshalBinary(MarshalBinary) into a fresh point -/
+def g1Clone (p : G1J) : G1J :=
+  let a := p.makeAffine
+  let (x, y) : GFp × GFp := if a.isInfinity then (GFp.montEncode ⟨0⟩, GFp.montEncode ⟨0⟩) else (reenc a.x, reenc a.y)
+  if x = 0 ∧ y = 0 then ⟨x, 1, 0, 0⟩ else ⟨x, y, 1, 1⟩
+
+/-- pointG2.MarshalBinary normalises the point IN PLACE, then encodes -/
+def g2Marshal (q : G2J) : String :=
+  let a := q.makeAffine
+  if a.isInfinity then "00" else "01" ++ dec a.x.x ++ dec a.x.y ++ dec a.y.x ++ dec a.y.y
+def g2Clone (q : G2J) : G2J :=
+  let a := q.makeAffine
+  if a.isInfinity then Jac.infinity
+  else
+    let x := reenc2 a.x
+    let y := reenc2 a.y
+    if x = 0 ∧ y = 0 then ⟨x, 1, 0, 0⟩ else ⟨x, y, 1, 1⟩
+
+def f12Coords (e : F12) : List GFp :=
+  [e.x.x.x, e.x.x.y, e.x.y.x, e.x.y.y, e.x.z.x, e.x.z.y, e.y.x.x, e.y.x.y, e.y.y.x, e.y.y.y, e.y.z.x, e.y.z.y]
+def gtMarshal (e : F12) : String := String.join ((f12Coords e).map dec)
+def gtClone (e : F12) : F12 :=
+  ⟨⟨reenc2 e.x.x, reenc2 e.x.y, reenc2 e.x.z⟩, ⟨reenc2 e.y.x, reenc2 e.y.y, reenc2 e.y.z⟩⟩
+
+def order : Nat := Gen.Bn256.Order
+
+def apiOp (rs : Regs) (dst name : String) (args : List String) : Option Regs := do
+  let kind := dst.front
+  if kind == 'b' then
+    -- chk:<p>,<q>,<p>,<q>,…
+    let rec pairs : List String → Option (List (G1J × G2J))
+      | [] => some []
+      | p :: q :: rest => do
+          match ← rs.get? p, ← rs.get? q with
+          | .g1 a, .g2 b => pure ((a, b) :: (← pairs rest))
+          | _, _ => none
+      | _ => none
+    let ps ← pairs args
+    return rs.put dst (.b (pairingCheck ps))
+  if kind == 'p' then
+    let recv : G1J := match rs.get? dst with
+      | some (.g1 p) => p
+      | _ => Jac.zeroValue
+    let g (n : String) : Option G1J := match rs.get? n with
+      | some (.g1 p) => some p
+      | _ => none
+    let v ← (match name with
+      | "base" => some curveGen
+      | "null" => some Jac.infinity
+      | "mul" => do pure (Jac.curveMul (← g (← args[1]?)) ((← (← args[0]?).toNat?) % order))
+      | "add" => do pure (Jac.add recv (← g (← args[0]?)) (← g (← args[1]?)))
+      | "sub" => do pure (Jac.add recv (← g (← args[0]?)) (curveNeg (← g (← args[1]?))))
+      | "neg" => do pure (curveNeg (← g (← args[0]?)))
+      | "set" => do g (← args[0]?)
+      | "clone" => do pure (g1Clone (← g (← args[0]?)))
+      | _ => none)
+    return rs.put dst (.g1 v)
+  if kind == 'q' then
+    let recv : G2J := match rs.get? dst with
+      | some (.g2 p) => p
+      | _ => Jac.zeroValue
+    let g (n : String) : Option G2J := match rs.get? n with
+      | some (.g2 p) => some p
+      | _ => none
+    match name with
+    | "clone" =>
+        -- MarshalBinary normalises the SOURCE in place
+        let src ← args[0]?
+        let a ← g src
+        let rs := rs.put src (.g2 a.makeAffine)
+        return rs.put dst (.g2 (g2Clone a))
+    | _ =>
+      let v ← (match name with
+        | "base" => some twistGen
+        | "null" => some Jac.infinity
+        | "mul" => do pure (Jac.twistMul (← g (← args[1]?)) ((← (← args[0]?).toNat?) % order))
+        | "add" => do pure (Jac.add recv (← g (← args[0]?)) (← g (← args[1]?)))
+        | "sub" => do pure (Jac.add recv (← g (← args[0]?)) (twistNeg (← g (← args[1]?))))
+        | "neg" => do pure (twistNeg (← g (← args[0]?)))
+        | "set" => do g (← args[0]?)
+        | _ => none)
+      return rs.put dst (.g2 v)
+  if kind == 'e' then
+    let g (n : String) : Option F12 := match rs.get? n with
+      | some (.gt p) => some p
+      | _ => none
+    let v ← (match name with
+      | "base" => some gfP12Gen
+      | "null" => some gfP12Inf
+      | "mul" => do pure ((← g (← args[1]?)).exp ((← (← args[0]?).toNat?) % order))
+      | "add" => do pure ((← g (← args[0]?)).mul (← g (← args[1]?)))
+      | "sub" => do pure ((← g (← args[0]?)).mul (← g (← args[1]?)).conjugate)
+      | "neg" => do pure (← g (← args[0]?)).conjugate
+      | "set" => do g (← args[0]?)
+      | "clone" => do pure (gtClone (← g (← args[0]?)))
+      | "pair" => do
+          match ← rs.get? (← args[0]?), ← rs.get? (← args[1]?) with
+          | .g1 a, .g2 b => pure (optimalAte b a)
+          | _, _ => none
+      | _ => none)
+    return rs.put dst (.gt v)
+  none
+
+def apiCase (prog : String) : String := orBad do
+  let rs ← (prog.splitOn ";").foldlM (fun (rs : Regs) op => do
+    match op.splitOn "=" with
+    | [dst, rhs] =>
+        match rhs.splitOn ":" with
+        | [name] => apiOp rs dst name []
+        | [name, args] => apiOp rs dst name (args.splitOn ",")
+        | _ => none
+    | _ => none) ([] : Regs)
+  let names := (rs.map (·.1)).toArray.qsort (· < ·) |>.toList
+  let outs ← names.mapM fun n => do
+    match ← rs.get? n with
+    | .g1 p => pure (n ++ "=" ++ g1Marshal p)
+    | .g2 q => pure (n ++ "=" ++ g2Marshal q)
+    | .gt e => pure (n ++ "=" ++ gtMarshal e)
+    | .b v => pure (n ++ "=" ++ toString v)
+  pure (" ".intercalate outs)
+
+def step (line : String) : String :=
+  match words line with
+  | ["f", op, alias, a, b] => fieldCase op alias a b
+  | ["fx", "enc", a] => orBad do pure (gfpHex (GFp.montEncode (← gfpOf a)))
+  | ["fx", "dec", a] => orBad do pure (gfpHex (GFp.montDecode (← gfpOf a)))
+  | ["fx", "inv", a] => orBad do pure (gfpHex (GFp.invert (← gfpOf a)))
+  | ["fx", "new", k] => orBad do pure (gfpHex (GFp.newGFp (← k.toInt?)))
+  | "t2" :: op :: args => t2Case op args
+  | "t6" :: op :: args => t6Case op args
+  | "t12" :: op :: args => t12Case op args
+  | "g1" :: op :: args => g1Case op args
+  | "g2" :: op :: args => g2Case op args
+  | ["miller", q, p] => orBad do pure (fp12Hex (miller (← g2Of q) (← g1Of p)))
+  | ["pair", q, p] => orBad do pure (fp12Hex (optimalAte (← g2Of q) (← g1Of p)))
+  | ["pair", q, p, _, _] => orBad do pure (fp12Hex (optimalAte (← g2Of q) (← g1Of p)))
+  | ["api", prog] => apiCase prog
+  | ["check", ps] => orBad do pure (toString (pairingCheck (← pairsOf ps)))
+  | ["const", name] =>
+      match name with
+      | "curveGen" => g1Hex curveGen
+      | "twistGen" => g2Hex twistGen
+      | "gtGen" => fp12Hex gfP12Gen
+      | "gtInf" => fp12Hex gfP12Inf
+      | "curveB" => gfpHex curveB
+      | "twistB" => fp2Hex twistB
+      | _ => bad
+  | _ => bad
+
+end C10Drv
+
+def main : IO Unit := Dos.lineLoop C10Drv.step
